@@ -369,6 +369,28 @@ def run_case(case):
                      f"v* + 2 errTol (v*={v:.6f}, errTol={errTol})")
             if any(s is not None and not s[2] for s in signs):
                 classes.append("probe-flags-false")
+            # attribute a failed sign test to its mechanism where the monitor can show it
+            bad = [x for x in viol if x["mech"].startswith("pressure-not-")]
+            if bad:
+                try:
+                    from wgverif.checks import _meta as MT
+                    vv = [s_ for s_ in signs if s_ is not None][-1][0]
+                    solver = manager.setupWallSolver(settings)
+                    Ps = []
+                    for L0 in (cfg["wallThicknessGuess"], cfg["wallThicknessGuess"] / 2.5):
+                        wpx = WallGo.WallParams(widths=np.full(pot.fieldCount, L0 / b["Tn"]),
+                                                offsets=np.zeros(pot.fieldCount))
+                        Ps.append(float(tr._wp(solver.eom, vv, wpx)[0]))
+                    rel_ = abs(Ps[0] - Ps[1]) / max(abs(Ps[0]), abs(Ps[1]), 1e-300)
+                    obs["start_dependence"] = {"vw": vv, "P": Ps, "rel": rel_}
+                    if rel_ > 3 * cfg["pressRelErrTol"]:
+                        for x in bad:
+                            x["msg"] += (f" | mechanism probe: wallPressure({vv:.5f}) = "
+                                         f"{Ps[0]:.4e} / {Ps[1]:.4e} from two initial "
+                                         f"thicknesses (rtol {cfg['pressRelErrTol']})")
+                            x["mech"] = "pressure-iteration-start-dependent"
+                except Exception as exc:
+                    obs["start_dependence_error"] = repr(exc)[:100]
         elif res0.solutionType == ESolutionType.ERROR:
             classes.append("error-outcome")
             if res0.success:
